@@ -4,7 +4,7 @@ import random
 import time
 
 from ..core import Op
-from .. import aoef, aoefgen, aoef_impl, c01_cases, c01_impl
+from .. import aoef, aoefgen, aoef_impl, c01_cases, c01_fs, c01_impl
 
 PROPERTY = "C01"
 LEAN_MODULE = "Proofs.C01"
@@ -231,7 +231,16 @@ def _impl_roundtrip_dup(inp):
     return {k: v for k, v in out.items() if k in ("val", "raise", "unbuildable")}
 
 
+def _impl_fs_history(inp):
+    return c01_fs.run(inp)
+
+
 OPS = {
+    # histories over one file system: the same path saved again with a smaller / larger / other / revised collection,
+    # a loaded object edited and saved back, foreign content at the target, interleaved paths, poisoned results
+    "fs_history": Op("fs_history", _impl_fs_history, holds=c01_fs.holds, compare=c01_fs.compare, determined=False,
+                     to_model=c01_fs.to_model,
+                     nontrivial=lambda i, o: isinstance(o, dict) and any("val" in x for x in o.get("steps", []))),
     # the same object listed twice in the collection's own member list (outside WF: only the correspondence is checked)
     "roundtrip_dup": Op("roundtrip_dup", _impl_roundtrip_dup, compare=_cmp_roundtrip, determined=False,
                         to_model=_model_roundtrip, model_op="roundtrip", nontrivial=lambda i, o: "val" in o),
@@ -570,7 +579,14 @@ def _stage_wide(ctx, st):
 
 IO_VARIANTS = [{"save_format": None}, {"save_format": "aoef", "load_format": None}, {"load_format": "aoef", "load_type": True},
                {"load_type": True}, {"subdir": True, "path_as": "path"}, {"subdir": True, "save_format": None, "load_format": None,
-                                                                          "load_type": True}, {"path_as": "path"}]
+                                                                          "load_type": True}, {"path_as": "path"},
+               # follow-up: positional arguments in the documented order, a target that already holds something,
+               # a file name relative to the working directory, the file removed between the cycles
+               {"positional": True}, {"positional": True, "load_type": True, "path_as": "path"},
+               {"positional": True, "save_format": None, "load_format": None, "subdir": True},
+               {"preexisting": "junk-long"}, {"preexisting": "nested-tail", "positional": True}, {"preexisting": "empty"},
+               {"preexisting": "spaces", "load_type": True}, {"relname": ""}, {"relname": "./", "path_as": "path"},
+               {"remove_between": True}]
 
 
 def _stage_io(ctx, st):
@@ -589,6 +605,101 @@ def _stage_io(ctx, st):
                 dups.append(dict(c, collection={"type": c["collection"]["type"], "value": w}, n=1))
     ctx.tally("duplicated-member inputs (outside WF, correspondence only)", len(dups))
     ctx.run_cases(OPS["roundtrip_dup"], dups)
+
+
+def _small_cases(ctx, tag):
+    """one small and one empty collection of every type, without a directory, under an absolute and under a relative one"""
+    rng = random.Random("C01-small:" + tag)
+    out = []
+    for ty in aoefgen.TYPES:
+        for base, d in ((None, None), ("/data/audio", "/data/audio"), ("audio/site a", "./audio/")):
+            cj = aoefgen.gen_collection(rng, ty, base=base, size=0.6)
+            out.append({"collection": cj, "save_dir": d, "load_dir": d, "n": 2, "dir_as": "str", "fresh": False})
+        v = {"uuid": aoefgen.Gen(rng, size=0.3).uid(), "created_on": "2024-02-29T12:00:00"}
+        full = aoefgen.gen_collection(rng, ty, size=0.3)["value"]
+        for k, x in full.items():
+            if k not in v:
+                v[k] = [] if isinstance(x, list) else (x if k in ("name", "evaluation_task") else None)
+        out.append({"collection": {"type": ty, "value": v}, "save_dir": "/data/audio", "load_dir": "/data/audio", "n": 2,
+                    "dir_as": "path", "fresh": False, "_tally": "empty collection"})
+    return _wf_filter(ctx, out)
+
+
+def _stage_products(ctx, st):
+    """pairwise products (HISTORIES.md section 3): every spelling of the calls x every collection type x
+    {no directory, absolute, relative, empty collection}; every construction path x every collection type"""
+    small = _small_cases(ctx, "calls")
+    cases = [dict(c, io=v) for c in small for v in IO_VARIANTS]
+    for c in cases:
+        c.pop("_tally", None)
+    ctx.exhaustive["call_spellings"] = (f"{len(IO_VARIANTS)} spellings of save/load (format given / inferred / positional, type requested, "
+                                        "str / Path, missing parent, pre-existing target, relative file name) x 8 collection types x "
+                                        "{no directory, absolute, relative, empty collection}")
+    ctx.tally("call spelling x type x directory class", len(cases))
+    ctx.run_cases(OPS["roundtrip"], cases)
+    vias = [v for v in c01_impl.VIAS if v != "build"]
+    src = st.get("rich", [])[8:16] + _small_cases(ctx, "vias")[::2] + st.get("twin", [])[::6]
+    cases = [dict(c, via=v, n=1 + (i + j) % 2, fresh=bool((i + j) % 3 == 0)) for i, c in enumerate(src) for j, v in enumerate(vias)]
+    for c in cases:
+        c.pop("_tally", None)
+        c.pop("ints", None)
+    ctx.exhaustive["construction_paths"] = ("constructors / model_validate(dict) / model_validate with tuples / model_validate_json / "
+                                            "model_copy deep and shallow / copy.deepcopy / ints / numpy scalars assigned, x all-fields "
+                                            "and small collections of every type")
+    ctx.tally("construction path x collection", len(cases))
+    ctx.run_cases(OPS["roundtrip"], cases)
+
+
+def _stage_siblings(ctx, st):
+    """every list slot of every class one at a time reversed / rotated / with a repeated element; objects of
+    different kinds under one uuid"""
+    rich_by_type = {}
+    for c in st.get("rich", [])[8:]:
+        rich_by_type.setdefault(c["collection"]["type"], c["collection"])
+    vs = c01_cases.sibling_variants(rich_by_type, ctx.rng, hosts_per_slot=None if ctx.thorough() else 1)
+    cases = [dict(c, save_dir=None, load_dir=None, n=1, dir_as="str", fresh=bool(i % 4 == 0)) for i, (label, c) in enumerate(vs)]
+    cases = _buildable(ctx, _wf_filter(ctx, cases))
+    ctx.tally("sibling list slots (one slot reversed / rotated / repeated)", len(cases))
+    ctx.exhaustive["list_slots"] = (f"{len(c01_cases.LIST_SLOTS) + len(c01_cases.COLLECTION_LIST_SLOTS)} (class, list field) slots, one at a "
+                                    "time reversed / rotated / with a repeated element in an all-fields collection")
+    ctx.run_cases(OPS["roundtrip"], cases)
+    ctx.run_cases(OPS["save_doc"], _doc_cases(cases[::3]))
+    cross = []
+    for i, c in enumerate(st.get("rich", [])[:16] + st.get("cases", [])[::5] + st.get("twin", [])[::4]):
+        cross.append(dict(c, collection=c01_cases.share_uuids_across_kinds(c["collection"], ctx.rng), n=1 + i % 2,
+                          fresh=bool(i % 3 == 0)))
+    cross = _buildable(ctx, _wf_filter(ctx, cross))
+    for c in cross:
+        c.pop("_tally", None)
+    ctx.tally("one uuid shared by objects of different kinds", len(cross))
+    ctx.run_cases(OPS["roundtrip"], cross)
+    ctx.run_cases(OPS["save_doc"], _doc_cases(cross[::2]))
+
+
+def _stage_boundaries(ctx, st):
+    """tolerance-sized offsets around the comparison the adapters make (time_expansion != 1.0), near-twins (content a
+    hair apart), collections at the sizes where an implementation could switch strategy"""
+    te = _tally_cases(ctx, _wf_filter(ctx, c01_cases.time_expansion_cases()), "boundary")
+    ctx.exhaustive["time_expansion"] = (f"{len(c01_cases.time_expansion_values())} values: 1.0, its two neighbours, 1 +- 10^-6..10^-15, the "
+                                        "same offsets around 10, 1e-6, 1e9; 0, 5e-324")
+    ctx.run_cases(OPS["roundtrip"], te)
+    ctx.run_cases(OPS["save_doc"], _doc_cases(te[::2]))
+    near = []
+    for ty in aoefgen.TYPES:
+        for i in range(ctx.budget(3, 60)):
+            base = ctx.rng.choice(["/data/audio", None])
+            cj = c01_cases.NearGen(ctx.rng, rich=i == 0, base=base, size=0.8).collection(ty)
+            near.append({"collection": cj, "save_dir": base, "load_dir": base, "n": ctx.rng.choice([1, 2]), "dir_as": "str",
+                         "fresh": bool(i % 2), "_tally": "near-twins"})
+    near = _tally_cases(ctx, _buildable(ctx, _wf_filter(ctx, near)), "boundary")
+    ctx.run_cases(OPS["roundtrip"], near)
+    ctx.run_cases(OPS["save_doc"], _doc_cases(near[::2]))
+    sizes = _tally_cases(ctx, _wf_filter(ctx, c01_cases.size_cases(ctx.rng, (17, 257, 1025) if not ctx.thorough() else (17, 33, 257, 1025, 2049))),
+                         "size")
+    ctx.exhaustive["sizes"] = "17 / 257 / 1025 recordings, tags, features, notes, sound event annotations, predictions; parent chains of 17 / 257"
+    ctx.run_cases(OPS["roundtrip"], sizes)
+    ctx.run_cases(OPS["roundtrip"], [dict(c, fresh=True) for c in sizes[::3]])
+    ctx.run_cases(OPS["save_doc"], _doc_cases(sizes[::4]))
 
 
 def _stage_load(ctx, st):
@@ -617,6 +728,45 @@ def _stage_history(ctx, st):
     ctx.tally("multi-collection histories (12 steps each)", len(multi))
 
 
+def _fs_prepare(ctx, hs):
+    """fill the documents of `put` steps from the model's `save`, keep the histories whose collections are all
+    inside the quantifier (WF, and constructible where an edit produced them)"""
+    puts = [s for h in hs for s in h["steps"] if "doc_of" in s]
+    docs = ctx.model_many("save", [{"collection": s["doc_of"], "audio_dir": None} for s in puts])
+    for s, d in zip(puts, docs):
+        s.pop("doc_of")
+        if isinstance(d, dict) and "val" in d:
+            s["doc"] = d["val"]
+        else:
+            s["text"] = "junk-long"
+    keep = []
+    for h in hs:
+        saves = [s for s in h["steps"] if s["cmd"] == "save"]
+        oks = ctx.model_many("wf", [{"collection": s["collection"]} for s in saves])
+        if not all(oks):
+            ctx.tally("generator:not-WF")
+            continue
+        if len(_buildable(ctx, [s for s in saves if s.get("edit")])) != len([s for s in saves if s.get("edit")]):
+            continue
+        kind = h.pop("_kind", "?")
+        ctx.tally("fs-history:" + kind)
+        for s in h["steps"]:
+            ctx.tally("fs-step:" + s["cmd"] + (":fresh" if s.get("fresh") else "") + (":edited-loaded" if s.get("edit") else "")
+                      + (":poison" if s.get("poison") else ""))
+            if s["cmd"] == "save":
+                ctx.tally("constructed via:" + str(s.get("via", "loaded" if s.get("source") == "loaded" else "build")))
+                ctx.tally("call:" + s.get("call", "kw"))
+        keep.append(h)
+    return keep
+
+
+def _stage_fs(ctx, st):
+    """the file system is the state between calls: histories of saves and loads over shared paths"""
+    hs = _fs_prepare(ctx, c01_fs.histories(ctx.rng, ctx.budget(40, 800)))
+    ctx.tally("file-system histories", len(hs))
+    ctx.run_cases(OPS["fs_history"], hs)
+
+
 def _stage_gate(ctx, st):
     # the file-level gate of io.load: every combination of existence / suffix / format / version / type
     ctx.run_cases(OPS["load_gate"], _gate_cases())
@@ -635,8 +785,10 @@ def _correspondence(ctx):
     ctx.run_corpus(OPS)
     st = {}
     for name, fn in (("all-fields", _stage_rich), ("optional-slots", _stage_slots), ("random", _stage_random),
-                     ("directories", _stage_dirs), ("wide-atoms-twins", _stage_wide), ("call-variants", _stage_io), ("loader", _stage_load),
-                     ("histories", _stage_history), ("load-gate", _stage_gate), ("large", _stage_big)):
+                     ("directories", _stage_dirs), ("wide-atoms-twins", _stage_wide), ("call-variants", _stage_io), ("call-and-construction-products", _stage_products),
+                     ("sibling-slots", _stage_siblings), ("boundaries-sizes", _stage_boundaries), ("loader", _stage_load),
+                     ("histories", _stage_history), ("file-system-histories", _stage_fs), ("load-gate", _stage_gate),
+                     ("large", _stage_big)):
         t0 = time.time()
         ctx.stage("correspondence:" + name, fn, ctx, st)
         ctx.tally("seconds in stage " + name, round(time.time() - t0, 1))
